@@ -375,6 +375,26 @@ func (x *c09) step(op C09Op) error {
 		return x.appendClient(m, op.Roots)
 	case "free":
 		return x.freeClient(m, resolveIdx(op.Idx, op.OOB, len(m.Roots)))
+	case "confirm":
+		// broadcast and mine one of the revisions committed so far (usually an
+		// older one): roots and latest revision must stay what they are
+		if len(m.Chain) < 2 {
+			return nil
+		}
+		rev := m.Chain[1+mod(op.Len, len(m.Chain)-1)]
+		basis, fce, err := x.H.Contractor.V2FileContractElement(m.ID)
+		if err != nil || rev.RevisionNumber <= fce.V2FileContract.RevisionNumber {
+			return nil
+		}
+		txn := types.V2Transaction{FileContractRevisions: []types.V2FileContractRevision{{Parent: fce, Revision: rev}}}
+		if _, err := x.H.CM.AddV2PoolTransactions(basis, []types.V2Transaction{txn}); err != nil {
+			return fmt.Errorf("a revision the host committed (%d) is not accepted by the pool: %v", rev.RevisionNumber, err)
+		}
+		if err := x.H.Mine(types.VoidAddress, 1); err != nil {
+			return err
+		}
+		x.cs.Class("confirmed-a-committed-revision")
+		return x.check(fmt.Sprintf("revision %d (latest %d) confirmed on chain", rev.RevisionNumber, m.Rev.RevisionNumber), nil)
 	case "rawfree":
 		var idx []uint64
 		for _, i := range op.Idx {
@@ -539,7 +559,10 @@ func genC09(t *rapid.T) C09Case {
 	n := rapid.IntRange(1, maxOps).Draw(t, "nops")
 	for i := 0; i < n; i++ {
 		op := C09Op{C: rapid.IntRange(0, nc-1).Draw(t, "c"), Old: rapid.IntRange(0, 4).Draw(t, "old") == 0}
-		switch k := rapid.IntRange(0, 14).Draw(t, "op"); {
+		switch k := rapid.IntRange(0, 15).Draw(t, "op"); {
+		case k == 15:
+			op.Op = "confirm"
+			op.Len = rapid.IntRange(0, 7).Draw(t, "which")
 		case k < 4:
 			op.Op = "append"
 			na := rapid.IntRange(1, 4).Draw(t, "nroots")
